@@ -580,3 +580,84 @@ Proof.
   - replace (need items <=? mr)%Z with true in H by lia. exact H.
   - replace (need items <=? mr)%Z with false in H by lia. exact H.
 Qed.
+
+(* ---- no single read ever asks for more than one buffer, for every input ---- *)
+
+Definition reqs_small (buf : nat) (s : stream) : Prop := Forall (fun np => fst np <= buf) (reqs s).
+
+Definition bres_small (buf : nat) (r : bres) : Prop :=
+  match r with
+  | BDone _ _ s | BTooLarge s | BParseErr s => reqs_small buf s
+  | BOutOfFuel => True
+  end.
+
+Lemma read_small s n buf : n <= buf -> reqs_small buf s -> reqs_small buf (snd (read s n)).
+Proof. intros Hn H. unfold read, reqs_small. cbn [snd reqs]. constructor; [exact Hn | exact H]. Qed.
+
+Lemma scan_line_small buf k : forall s sr ss dg,
+  0 < buf -> reqs_small buf s -> reqs_small buf (snd (scan_line k s sr ss dg)).
+Proof.
+  induction k as [|k IH]; intros s sr ss dg Hbuf H; cbn [scan_line];
+    pose proof (read_small s 1 buf Hbuf H) as H1; destruct (read s 1) as [c s1]; cbn [snd] in *.
+  - exact H1.
+  - destruct c as [|b c']; [exact H1|].
+    destruct (sr && (b =? 10)%N); [exact H1|].
+    destruct ss; [apply IH; assumption|].
+    destruct ((b =? 13)%N || (b =? 59)%N); apply IH; assumption.
+Qed.
+
+Lemma ch_payload_small : forall fuel s buf maxb c acc sp,
+  reqs_small buf s ->
+  match ch_payload fuel s buf maxb c acc sp with
+  | PCont s' _ _ => reqs_small buf s'
+  | PStop r => bres_small buf r
+  end.
+Proof.
+  induction fuel as [|f IH]; intros s buf maxb c acc sp H; [exact I|].
+  cbn [ch_payload]. destruct (c <=? 0)%Z; [exact H|].
+  pose proof (read_small s (Z.to_nat (Z.min c (Z.of_nat buf))) buf ltac:(lia) H) as H1.
+  destruct (read s _) as [part s1]. cbn [snd] in H1.
+  destruct part as [|x part]; [exact H1|].
+  destruct (over maxb (length (acc ++ x :: part))); [exact H1|].
+  apply IH; exact H1.
+Qed.
+
+Lemma ch_loop_small : forall fuel s buf maxb acc sp,
+  0 < buf -> reqs_small buf s -> bres_small buf (ch_loop fuel s buf maxb acc sp).
+Proof.
+  induction fuel as [|f IH]; intros s buf maxb acc sp Hbuf H; [exact I|].
+  cbn [ch_loop].
+  pose proof (scan_line_small buf buf s false false [] Hbuf H) as H1.
+  destruct (scan_line buf s false false []) as [[dg|] s1]; cbn [snd] in H1; [|exact H1].
+  destruct (py_int_hex dg) as [z|]; [|exact H1].
+  destruct (z =? 0)%Z; [exact H1|].
+  pose proof (ch_payload_small (S (length (rest s1))) s1 buf maxb z acc sp H1) as H2.
+  destruct (ch_payload _ s1 buf maxb z acc sp) as [s2 acc2 sp2|r]; [|exact H2].
+  pose proof (read_small s2 1 buf Hbuf H2) as H3. destruct (read s2 1) as [c1 s3]. cbn [snd] in H3.
+  destruct (is_byte c1 13); [|exact H3].
+  pose proof (read_small s3 1 buf Hbuf H3) as H4. destruct (read s3 1) as [c2 s4]. cbn [snd] in H4.
+  destruct (is_byte c2 10); [|exact H4].
+  apply IH; assumption.
+Qed.
+
+Lemma cl_loop_small : forall fuel s buf maxb c acc sp,
+  reqs_small buf s -> bres_small buf (cl_loop fuel s buf maxb c acc sp).
+Proof.
+  induction fuel as [|f IH]; intros s buf maxb c acc sp H; [exact I|].
+  cbn [cl_loop]. destruct (c =? 0); [exact H|].
+  pose proof (read_small s (Nat.min c buf) buf ltac:(lia) H) as H1.
+  destruct (read s _) as [part s1]. cbn [snd] in H1.
+  destruct part as [|x part]; [exact H1|].
+  destruct (over maxb (length (acc ++ x :: part))); [exact H1|].
+  apply IH; exact H1.
+Qed.
+
+Lemma C13_reads_small_lemma :
+  forall (data : list N) (sc : list nat) (buf : nat) (maxb : option nat) (cl : Z) (chunked : bool),
+    0 < buf -> bres_small buf (body_read (stream_init data sc) buf maxb cl chunked).
+Proof.
+  intros data sc buf maxb cl chunked Hbuf. unfold body_read.
+  destruct chunked.
+  - apply ch_loop_small; [exact Hbuf | constructor].
+  - apply cl_loop_small. constructor.
+Qed.
